@@ -1,6 +1,6 @@
 from run import Family
 
-BOUNDS = {'stack step': 'one line of each kind (begin known / begin unknown / end / text / comment) from every depth 0..254, depth symbolic within each capacity class (capacity 20, 40, 80, 160 as the doubling rule leaves it); two registered contexts; handler states symbolic',
+BOUNDS = {'stack step': 'one line of each kind (begin known / begin unknown / end / text / comment) from every depth 0..254, depth symbolic within each capacity class (capacity 20, 40, 80, 160, and above 160 whatever the growth step of the code itself produces); two registered contexts; handler states symbolic',
           'files': 'every file of 0..3 lines (quick) / 0..4 (thorough) over {comment, begin one, begin two, begin zz, end, text} after the magic line, through fopen/fgets/fclose stubs',
           'outside': '%include trees (file-stack step is checked in C11), %preproc, backquotes'}
 RULE = 'C09 shapes: (capacity class, line kind) with symbolic depth; (number of lines, line-kind code) for whole files.'
@@ -16,7 +16,8 @@ def families(tier):
     q = tier == 'quick'
     f = Family('stack_step', 'c09_conf.c', unwind=22, cap=(120, 3) if q else (400, 8), **COMMON)
     # (capacity, lowest depth, highest depth): index < capacity, and idx+1 == capacity triggers the growth
-    classes = [(20, 0, 0), (20, 1, 18), (20, 19, 19), (40, 20, 38), (40, 39, 39), (80, 40, 78), (80, 79, 79), (160, 80, 158), (160, 159, 159)]
+    classes = [(20, 0, 0), (20, 1, 18), (20, 19, 19), (40, 20, 38), (40, 39, 39), (80, 40, 78), (80, 79, 79), (160, 80, 158), (160, 159, 159),
+               (-160, 160, 206), (-160, 207, 253), (-160, 254, 254)]    # negative: the class the code's own growth from a full 160-entry table produces
     for cap, lo, hi in classes:
         for kind, kn in enumerate(('begin_known', 'begin_unknown', 'end', 'text', 'comment')):
             f.add('C09/step/%s/cap=%d,depth=%d..%d' % (kn, cap, lo, hi), 'h_step', cap, lo, hi, kind)
